@@ -4,7 +4,15 @@ for each emitted function the solver explores ALL branch outcomes."""
 import itertools, random
 
 FORMS = ["if", "ifelse_then", "ifelse_else", "elif_first", "elif_second", "elif_else", "while", "from_to", "from_through_step", "from_named", "from_stepexpr"]
-LEAVES = ["plain", "break", "continue", "return"]
+LEAVES = ["plain", "break", "continue", "return", "logic", "or_param", "or_captured"]
+LEAF_TEXT = {
+    "plain": ["acc = acc + 1"],
+    "return": ["return acc"],
+    # expression-level jumps: `&&` / `||` compile to store_skip, `(x) or y` to jmp_not_nil, `get` to unwrap
+    "logic": ["lb = p0 == 1 && p1 == 2 || p2 == 0", "acc = acc + 1"],
+    "or_param": ["acc = acc + ((o) or 5)"],
+    "or_captured": ["acc = acc + ((g_none) or 11) + ((g_some) or 13)"],
+}
 LOOPS = {"while", "from_to", "from_through_step", "from_named", "from_stepexpr"}
 
 
@@ -25,10 +33,8 @@ def render(spine, leaf, variant=0):
     """-> list of source lines for the nested statement; spine = tuple of FORMS (outermost first)"""
     def go(i, in_loop):
         if i == len(spine):
-            if leaf == "plain":
-                return ["acc = acc + 1"]
-            if leaf == "return":
-                return ["return acc"]
+            if leaf in LEAF_TEXT:
+                return list(LEAF_TEXT[leaf])
             return [leaf]
         f = spine[i]
         d = i
@@ -79,7 +85,7 @@ def enumerate_spines(depth):
 
 def function_source(name, spine, leaf, variant):
     body = ["acc = 0"] + render(spine, leaf, variant) + ["return acc"]
-    return ["%s = fn(p0: int, p1: int, p2: int) -> int {" % name] + ind(body) + ["}"]
+    return ["%s = fn(p0: int, p1: int, p2: int, o: int?) -> int {" % name] + ind(body) + ["}"]
 
 
 ARGS = [(0, 0, 0), (1, 1, 1), (2, 2, 2), (1, 0, 2), (0, 1, 1), (2, 1, 0)]
@@ -87,13 +93,13 @@ ARGS = [(0, 0, 0), (1, 1, 1), (2, 2, 2), (1, 0, 2), (0, 1, 1), (2, 1, 0)]
 
 def module_source(funcs, call=True):
     """funcs: list of (name, spine, leaf, variant) -> MScript module text"""
-    lines = []
+    lines = ["g_none: int? = nil", "g_some: int? = 7"]
     for name, spine, leaf, variant in funcs:
         lines += function_source(name, spine, leaf, variant)
     if call:
         for name, _, _, _ in funcs:
-            for a in ARGS:
-                lines.append("print %s(%d, %d, %d)" % ((name,) + a))
+            for i, a in enumerate(ARGS):
+                lines.append("print %s(%d, %d, %d, %s)" % ((name,) + a + ("nil" if i % 2 == 0 else "4",)))
     return "\n".join(lines) + "\n"
 
 
